@@ -27,7 +27,10 @@ def judge (c : Case) : CaseResult := Id.run do
   let m1 := replay { faithful with eagerSettle := true } c
   let good (m : Replay) : Bool := m.oos.isNone && m.mismatch.isNone && sameVars m.finalVars ((implFinalVars c).getD [])
   let m := if good m0 then m0 else if good m1 then m1 else m0
-  let i := replay Cfg.ideal c
+  -- the token game, with the inclusive join at its earliest or at its latest allowed release point
+  let i0 := replay Cfg.ideal c
+  let i1 := replay Cfg.idealLate c
+  let i := if good i1 && !(good i0) then i1 else i0
   let implVars := (implFinalVars c).getD []
   let unknownReq (o : Option String) : Bool := (o.map (·.startsWith "answer to unknown request")).getD false
   -- livelock / blocked driver calls are failures of the implementation whatever the model says
